@@ -180,6 +180,9 @@ def simplify(t):
         return t
     if k == "variant":
         base, name = t[1], t[2]
+        if base[0] == "call" and base[1] == "checked" and name == "Some":
+            # `match a.checked_op(b) { Some(v) => v, None => panic }` is the unwrap of the checked operation
+            return ("tuple", (base[2][0],))
         if base[0] == "adt" and base[2] == name:
             # payload container: fields are accessed via ("field", variant, "0")
             return ("tuple", tuple(ft for _, ft in base[3]))
@@ -190,6 +193,30 @@ def simplify(t):
             if ty in ("f64", "f32"):
                 return const(float(x[1]))
         return t
+    return t
+
+
+def _resimplify(t):
+    """bottom-up simplify after a substitution"""
+    if not isinstance(t, tuple) or not t:
+        return t
+    k = t[0]
+    if k == "op":
+        return simplify(("op", t[1], tuple(_resimplify(a) for a in t[2])))
+    if k in ("field", "tfield", "variant"):
+        return simplify((k, _resimplify(t[1]), t[2]))
+    if k == "index":
+        return ("index", _resimplify(t[1]), _resimplify(t[2]))
+    if k == "call":
+        return ("call", t[1], tuple(_resimplify(a) for a in t[2]))
+    if k == "phi":
+        return mk_phi([_resimplify(a) for a in t[1]])
+    if k == "cast":
+        return simplify(("cast", t[1], _resimplify(t[2])))
+    if k == "tuple":
+        return ("tuple", tuple(_resimplify(a) for a in t[1]))
+    if k == "adt":
+        return ("adt", t[1], t[2], tuple((n, _resimplify(a)) for n, a in t[3]))
     return t
 
 
@@ -543,7 +570,45 @@ class TermBuilder:
         t = self._local(l, bb, idx, ignore_clobber)
         if "loopvar" in repr(t):
             t = self._summarise_finished_loops(t, bb)
+            # an explicit iteration counter is the index of the current item
+            loops = self._loops()
+            m = {}
+            for s_ in subterms(t):
+                if s_[0] == "loopvar" and s_[2] in loops and bb in loops[s_[2]] and s_ not in m:
+                    c = self._iteration_counter(s_[1], s_[2])
+                    if c is not None:
+                        m[s_] = c
+            if m:
+                t = subst_term(t, m)
+                t = _resimplify(t)
         return t
+
+    def _loops_containing(self, b):
+        return [h for h, body in self._loops().items() if b in body]
+
+    def _iteration_counter(self, l, h):
+        """("enum_idx", stream) (+ start) when local l counts the iterations of the stream loop at h: initialised with a constant,
+        incremented by one exactly once in every iteration, the loop being left only on exhaustion of its single iterator"""
+        key = ("counter", l, h)
+        if key in self._memo:
+            return self._memo[key]
+        self._memo[key] = None
+        r = None
+        fn = self.fn
+        if fn.local_ty(l) in ("usize", "u64", "u32", "i32", "i64", "isize"):
+            body = self._loops()[h]
+            ds = [d for d in self._all_defs(l) if d[0] in body]
+            init = self._entry_value(l, h, False, through_head=True)
+            if len(ds) == 1 and ds[0][2] == "stmt" and init[0] == "const" and isinstance(init[1], int) and not isinstance(init[1], bool):
+                upd = self._exit_value(l, ds[0][0], False)
+                lv = ("loopvar", l, h)
+                back = [p for p in fn.preds()[h] if p in body]
+                if upd == simplify(("op", "Add", (lv, const(1)))) and all(fn.dominates(ds[0][0], b) for b in back):
+                    st = self._for_loop_stream(h)
+                    if st is not None:
+                        r = ("enum_idx", st) if init[1] == 0 else simplify(("op", "Add", (("enum_idx", st), init)))
+        self._memo[key] = r
+        return r
 
     def _summarise_finished_loops(self, t, bb):
         """outside a loop, the loop-carried symbol of a vector that the loop only appends to is the collected stream"""
@@ -788,6 +853,19 @@ class TermBuilder:
             # `&mut v` -> `&mut [T]` on the way to an in-place permutation in the next block
             nb = t.j.get("target")
             if nb is not None and self.fn.blocks[nb].term.k == "call" and self.fn.blocks[nb].term.callee_name() in IN_PLACE_PERMUTATIONS:
+                return self.local(l, b, i)
+        if ref_local is not None and t.k == "call" and t.callee_decl() in ("std::iter::Iterator::next", "std::iter::Iterator::by_ref") and len(t.args) == 1 \
+                and t.args[0].place is not None and t.args[0].place.is_local() and not self._loops_containing(b):
+            # outside loops, taking the first item of an iterator local leaves "the same stream" as far as the rules are concerned:
+            # `first = it.next().unwrap(); it.fold(first, min)` visits every item (the first one twice, harmless for min/max/all)
+            aliases0 = {ref_local}
+            for sj in range(i + 1, len(blk.stmts)):
+                s2 = blk.stmts[sj]
+                if s2.k == "assign" and s2.place.is_local() and s2.rv.k in ("ref", "use") and (s2.rv.place or (s2.rv.ops[0].place if s2.rv.ops else None)) is not None:
+                    pl = s2.rv.place or s2.rv.ops[0].place
+                    if pl.local in aliases0:
+                        aliases0.add(s2.place.local)
+            if t.args[0].place.local in aliases0:
                 return self.local(l, b, i)
         if fn.local_ty(l).startswith(("std::cell::RefMut<", "std::cell::Ref<", "&")):
             # `&mut guard` (for DerefMut): what may change is the structure behind the guard, whose term is a place — the guard
